@@ -1,3 +1,4 @@
+pub mod big;
 pub mod chain;
 pub mod drive;
 pub mod explore;
